@@ -403,7 +403,7 @@ def jobs_for(prop, tier):
         return jobs_c09(tier) + [j for j in jobs_option_below(tier) if j[1][3] in ('rpad', 'rpad_and_clip')]
     if prop == 'C07':
         return [j for j in jobs_option_below(tier) if j[1][3] == 'combinations']
-    return {'C01': jobs_c01, 'C03': jobs_c03, 'C04': jobs_c04, 'C05': jobs_c05, 'C09': jobs_c09}.get(prop, lambda t: [])(tier)
+    return {'C01': jobs_c01, 'C03': jobs_c03, 'C04': jobs_c04, 'C06': jobs_c06, 'C05': jobs_c05, 'C09': jobs_c09}.get(prop, lambda t: [])(tier)
 
 
 # ------------------------------------------------------------------------------------------------ C01: getitem_next of list nodes
@@ -1056,3 +1056,90 @@ def jobs_c04(tier):
         js.append((h_broadcast_tooffsets, ('RegularArray', (2, length), (2,) * length), 600))
         js.append((h_broadcast_tooffsets, ('RegularArray', (2, length), (2,) * (length - 1) + (1,)), 600))
     return js
+
+
+# ------------------------------------------------------------------------------------------------ C06: ListOffsetArray64::sort_next / argsort_next, local branch
+@guard
+def h_sort_local(lens, arg):
+    """ListOffsetArray64::sort_next / argsort_next for sorting below this list level (axis=-1 on lists of numbers): the content is handed exactly
+    the elements the lists cover, in order, with parents[k] = the list holding element k and one range per list; what it returns is cut back into
+    the same list lengths, list i receiving positions [sum(len[:i]), sum(len[:i+1])) of the answer - nothing moves between lists"""
+    lens = list(lens)
+    n, total = len(lens), sum(lens)
+    nc = NodeCtx(['LOA', 'LA', 'RA', 'IDX', 'CNT', 'UTL', 'KD', 'IDS', 'NA'], [], unwind=max(10, total + n + 6))
+    S = z3.Function('SORTED', z3.BitVecSort(64), z3.BitVecSort(64))
+    seen = []
+
+    def s_sort_next(eng, fr, ins, st, name, argv):
+        if arg:
+            sret, selfp, negaxis, starts, shifts, parents, outlength, asc, stable = argv
+        else:
+            sret, selfp, negaxis, starts, parents, outlength, asc, stable = argv
+        nm, info = nc.content_info(selfp, st, eng)
+        seen.append(dict(pc=st.pc, info=info, negaxis=negaxis, parents=nc.index_terms(st.mem, parents, 'parents')[0], nstarts=st.mem.o[starts.obj].cells[starts.off + 40][0],
+                         outlength=outlength, asc=asc, stable=stable))
+        k = z3.BitVec('k!', 64)
+        nc._ret(st, sret, nc.fresh_content(eng, st, info['length'], z3.Lambda([k], S(k)), derived='sorted'))
+        return None
+    nc.m.eng.stubs['vf$slot%d' % nc.slot('12argsort_nextEl' if arg else '9sort_nextEl')] = s_sort_next
+    nc.m.eng.stubs['vf$slot%d' % nc.slot('12branch_depthEv')] = lambda eng, fr, ins, st, name, argv: [z3.BitVecVal(0, 8), BV(1)]
+    this, lists, offs = build_listoffset64(nc, lens)
+    p0 = nc.m.array('parents0', ('i', 64), max(1, n), const=True, arr=z3.K(z3.BitVecSort(64), BV(0)))
+    s0 = nc.m.array('starts0', ('i', 64), 1, const=True, arr=z3.K(z3.BitVecSort(64), BV(0)))
+    mk = lambda nm, data, ln: (lambda cells: (nc.index_cells(cells, 0, data, BV(0), BV(ln)), nc.m.record(nm, cells, const=True))[1])({})
+    parents, starts, shifts = mk('parents', p0, n), mk('starts', s0, 1), mk('shifts', NULL, 0)
+    nc.m.record('ret', {})
+    asc, stable = z3.BitVecVal(1, 1), z3.BitVecVal(1, 1)
+    cands = [f for mod_ in nc.m.eng.mods for f in mod_.func_src if f.startswith('_ZNK7awkward17ListOffsetArrayOfIlE%s' % ('12argsort_nextEl' if arg else '9sort_nextEl'))]
+    if not cands:
+        raise Unsupported('sort_next of ListOffsetArray64 not found in the IR')
+    args = [Ptr('ret', 0), this, BV(1), starts] + ([shifts] if arg else []) + [parents, BV(1), asc, stable]
+    out = nc.m.call(cands[0], args)
+    what = 'argsort_next' if arg else 'sort_next'
+    obls = [('%s does not raise' % what, out.raised)]
+    if n:
+        obls.append(('the content is asked', z3.Not(z3.Or([ob['pc'] for ob in seen] + [z3.BoolVal(False)]))))
+    for ob in seen:
+        info, g = ob['info'], ob['pc']
+        G = lambda c: z3.And(g, c)
+        obls.append(('the content handed over has the summed length of the lists', G(info['length'] != total)))
+        for k in range(total):
+            obls.append(('element %d handed over is element %d of the covered range' % (k, k), G(z3.Select(info['atoms'], BV(k)) != offs[0] + k)))
+        want_par = [i for i, L in enumerate(lens) for _ in range(L)]
+        if len(ob['parents']) != total:
+            obls.append(('one parent per element', g))
+        else:
+            for k, (a, w) in enumerate(zip(ob['parents'], want_par)):
+                obls.append(('parents[%d] is the list holding element %d' % (k, k), G(a != w)))
+        obls.append(('one range per list', G(ob['nstarts'] != n)))
+        obls.append(('outlength is the number of lists', G(ob['outlength'] != n)))
+        obls.append(('negaxis, ascending and stable are passed on unchanged', G(z3.Or(ob['negaxis'] != 1, ob['asc'] != 1, ob['stable'] != 1))))
+    want, acc = [], 0
+    for L in lens:
+        want.append([Elem(S(BV(acc + j))) for j in range(L)])
+        acc += L
+    if n:
+        for g, res in nodeh.decode_cases(nc, out.mem, nc.m.cell('ret', 0)):
+            if res is None:
+                obls.append(('a result is returned', z3.And(g, z3.Not(out.raised))))
+            else:
+                obls += [(nm, z3.And(g, c)) for nm, c in compare(value(res), want)]
+
+    def replay(model, ent):
+        ov = offsets_values(model, offs)
+        lc = max(model.eval(nc.lencontent, model_completion=True).as_signed_long(), ov[-1])
+        if lc > 200:
+            return False, 'content too long to replay', dict(offsets=ov)
+        data = [(7 * k + 3) % 11 for k in range(lc)]
+        inp = [data[ov[i]:ov[i + 1]] for i in range(n)]
+        prog = 'i64 %s listoffset64 %s %s 1 1 1' % (fullnative.ints(data), fullnative.ints(ov), 'argsort' if arg else 'sort')
+        exp = [sorted(range(len(l)), key=lambda j: (l[j], j)) for l in inp] if arg else [sorted(l) for l in inp]
+        return akrun_check(prog, exp, '%s(axis=1) of ListOffsetArray64(offsets=%s) over %s' % ('argsort' if arg else 'sort', ov, data))
+    return mdischarge(nc.m, 'ListOffsetArray64::%s local lens=%s' % (what, ','.join(map(str, lens))), obls, [('non-zero offset origin', offs[0] > 0)] if n else [], replay=replay,
+                      prefer=[offs[0] <= 3, offs[0] >= 1, nc.lencontent <= offs[-1] + 2, nc.lencontent == offs[-1]],
+                      extra=dict(bounds='list lengths %s concrete (case split); offsets origin and content length symbolic; opaque leaf content' % lens))
+
+
+def jobs_c06(tier):
+    shapes = [(2,), (0, 3), (2, 0, 1)] if tier == 'quick' else [l for n in (1, 2, 3) for l in itertools.product(range(4), repeat=n)]
+    return [(h_sort_local, (l, a), 600) for l in shapes for a in (False, True)]
